@@ -42,7 +42,8 @@ TETRA = np.array([(1, 1, 1), (1, -1, -1), (-1, 1, -1), (-1, -1, 1)], dtype=float
 CENTRES = {'corner': (0.01, 0.01, 0.99), 'face': (0.5, 0.995, 0.5), 'interior': (0.41, 0.3, 0.6)}
 MATRICES = {
     'I': np.eye(3), 'diag': np.diag([1.0, 2.0, 3.0]), 'shear': np.array([[1, 0.5, 0], [0, 1, 0.25], [0, 0, 1.0]]),
-    'rotation': geom.rotation((20, 50, 80)), 'singular': np.array([[1, 2, 3], [2, 4, 6], [0, 1, 1.0]]), 'integer': np.array([[0, 1, 0], [-1, 0, 0], [0, 0, 1.0]]),
+    'rotation': geom.rotation((20, 50, 80)), 'lower-shear': np.array([[1, 0, 0], [0.5, 1, 0], [0, 0.25, 1.0]]),
+    'cell-like-lower-triangular': geom.from_parameters(5, 6, 7, 70, 80, 100), 'upper-with-scale': np.array([[2, 0.5, 0], [0, 3, 0.25], [0, 0, 4.0]]), 'singular': np.array([[1, 2, 3], [2, 4, 6], [0, 1, 1.0]]), 'integer': np.array([[0, 1, 0], [-1, 0, 0], [0, 0, 1.0]]),
 }
 
 
@@ -119,6 +120,8 @@ def eval_bonds(M, centres, oi, bond, T, res: Result):
     perm = atom_order(len(species), (oi + T) % 3)
     w_traj = w[:, perm, :]
     traj = concretise.make_trajectory(w_traj, [species[i] for i in perm], M, time_step=1e-15)
+    if (oi + T) % 2:
+        traj.displacements  # an earlier analysis may have left the trajectory in displacement mode
     res.evals += 1
     try:
         o = Orientations(traj, center_type='S', satellite_type='O')
